@@ -6,3 +6,4 @@ import SpecsModel.Props.C02
 #print axioms SpecsModel.C02.delete_atomic_dead_unchanged
 #print axioms SpecsModel.C02.batch_prefix
 #print axioms SpecsModel.C02.delete_all_empty
+#print axioms SpecsModel.C02.world_alive_iff_live
